@@ -327,13 +327,11 @@ impl<'a> ExprAST<'a> {
         left + " " + op + " " + &right
     }
 
-    // a postfix operator applies to the token-level expression right before it
+    // a postfix operator applies to the token-level expression right before it; postfix
+    // operators chain without parentheses: `a ++ --` is `(a ++) --`
     fn postfix_expr(&self, lhs: &ExprAST, op: &str) -> String {
         let left = match lhs {
-            ExprAST::Unary(..)
-            | ExprAST::Binary(..)
-            | ExprAST::Postfix(..)
-            | ExprAST::Ternary(..) => lhs.paren_expr(),
+            ExprAST::Unary(..) | ExprAST::Binary(..) | ExprAST::Ternary(..) => lhs.paren_expr(),
             _ => lhs.expr(),
         };
         left + " " + op
